@@ -225,3 +225,298 @@ Proof.
     destruct (newSubConn _) as [s2 o2] eqn:En. intros E; inv E.
     apply newSubConn_views in En. destruct En as [H1 [_ H3]]. split; auto.
 Qed.
+
+(* ================================================================ the pool maps (scstates, screfs) *)
+Definition poolview (s : bal) := (b_scstates s, b_screfs s).
+
+(* same ready channels, same census of non-idle connection states *)
+Definition pool_equiv (s s' : bal) : Prop :=
+  (forall i, In i (ready_slots s') <-> In i (ready_slots s)) /\
+  (forall x, x <> Idle -> count_st x (b_scstates s') = count_st x (b_scstates s)).
+
+Lemma pool_equiv_refl s : pool_equiv s s.
+Proof. split; [tauto|reflexivity]. Qed.
+
+Lemma pool_equiv_trans s1 s2 s3 : pool_equiv s1 s2 -> pool_equiv s2 s3 -> pool_equiv s1 s3.
+Proof.
+  intros [H1 H2] [H3 H4]. split.
+  - intros i. rewrite H3. apply H1.
+  - intros x Hx. rewrite H4, H2; auto.
+Qed.
+
+Lemma poolview_equiv s s' : poolview s' = poolview s -> pool_equiv s s'.
+Proof.
+  unfold poolview. intros H; inv H. split.
+  - intros i. rewrite !ready_slots_eq, H1, H2. tauto.
+  - intros x _. rewrite H1. reflexivity.
+Qed.
+
+Lemma add_state_pool_equiv s : Inv s -> pool_equiv s (add_state s).
+Proof.
+  intros (HK & _). pose proof (next_fresh_scstates s HK) as F2. split.
+  - intros i. rewrite !ready_slots_eq. unfold add_state; sb. symmetry. apply ready_of_add; auto.
+    apply (nd_scstates HK).
+  - intros x Hx. unfold add_state; sb. rewrite count_st_aset_absent by auto.
+    destruct (cstate_eqb_spec Idle x); [congruence|lia].
+Qed.
+
+Lemma addSubConn_pool_equiv s s' ok o : Inv s -> addSubConn s = (s', ok, o) -> pool_equiv s s'.
+Proof.
+  intros HI E. destruct (addSubConn_cases s) as [[_ E']|[_ E']]; rewrite E' in E; inv E.
+  - apply pool_equiv_refl.
+  - apply add_state_pool_equiv, HI.
+Qed.
+
+Lemma enforceMinSize_pool_equiv s s' o :
+  b_cfg s <> None -> Inv s -> enforceMinSize s = (s', o) -> pool_equiv s s'.
+Proof.
+  intros Hc HI E.
+  assert (G : Inv s' /\ grow_frame s s' /\ pool_equiv s s'); [|tauto].
+  revert s' o E. apply (enforceMinSize_ind (fun s' _ => Inv s' /\ grow_frame s s' /\ pool_equiv s s')).
+  - split; [auto|split; [apply grow_frame_refl|apply pool_equiv_refl]].
+  - intros s1 o1 s2 ok o2 [HI1 [HF1 HE1]] _ E.
+    assert (Hc1 : b_cfg s1 <> None) by (rewrite (gf_cfg _ _ HF1); auto).
+    destruct (addSubConn_Inv _ _ _ _ Hc1 HI1 E) as [HI2 HF2].
+    split; [auto|split; [eapply grow_frame_trans; eauto|]].
+    eapply pool_equiv_trans; [exact HE1|]. eapply addSubConn_pool_equiv; eauto.
+Qed.
+
+Lemma newSubConn_pool_equiv s s' o : Inv s -> newSubConn s = (s', o) -> pool_equiv s s'.
+Proof.
+  intros HI. unfold newSubConn. destruct (_ && _); [intros E; inv E; apply pool_equiv_refl|].
+  destruct (existsb _ _); [intros E; inv E; apply pool_equiv_refl|].
+  destruct (addSubConn s) as [[s1 ok] o1] eqn:E1. intros E; inv E. eapply addSubConn_pool_equiv; eauto.
+Qed.
+
+Lemma UpdateClientConnState_pool_equiv s addrs a raw s' o r :
+  Inv s -> UpdateClientConnState s addrs a raw = (s', o, r) -> pool_equiv s s'.
+Proof.
+  intros HI. rewrite UpdateClientConnState_eq.
+  destruct (ucc_init s addrs a raw) as [[s2 o2]|] eqn:E0; [|intros E; inv E; apply poolview_equiv; reflexivity].
+  destruct (ucc_init_Inv _ _ _ _ _ _ HI E0) as [HI2 _].
+  assert (H02 : pool_equiv s s2).
+  { unfold ucc_init in E0. sb. destruct (b_cfg s); [inv E0; apply poolview_equiv; reflexivity|].
+    destruct a; try discriminate; inv E0.
+    - destruct (initializeConfig (set_addrs s addrs) None) as [s3 o3] eqn:Ei. inv H0.
+      unfold initializeConfig in Ei. apply enforceMinSize_pool_equiv in Ei; [exact Ei|cbn; discriminate|].
+      apply Inv_set_cfg_undet, Inv_set_addrs, HI.
+    - destruct (initializeConfig (set_addrs s addrs) raw) as [s3 o3] eqn:Ei. inv H0.
+      unfold initializeConfig in Ei. apply enforceMinSize_pool_equiv in Ei; [exact Ei|cbn; discriminate|].
+      apply Inv_set_cfg_undet, Inv_set_addrs, HI. }
+  destruct (_ =? _)%nat; [|intros E; inv E; exact H02].
+  destruct (addSubConn s2) as [[s3 ok] o3] eqn:E3. intros E; inv E.
+  eapply pool_equiv_trans; [exact H02|]. eapply addSubConn_pool_equiv; eauto.
+Qed.
+
+Lemma getReadySubConnRef_poolview s key s' r found :
+  getReadySubConnRef s key = (s', r, found) -> poolview s' = poolview s.
+Proof.
+  unfold getReadySubConnRef. destruct (aget (b_aff s) key); [|intros E; inv E; auto].
+  destruct (negb _); [|intros E; inv E; auto].
+  destruct (cfg_fallback s); [|intros E; inv E; auto].
+  destruct (aget (b_fb s) key); [intros E; inv E; auto|].
+  destruct (b_picker s); [intros E; inv E; auto|].
+  destruct (leastBusy s refs); [|intros E; inv E; auto].
+  destruct (get_slot s n0); intros E; inv E; auto.
+Qed.
+
+Lemma Pick_pool_equiv s pi pk method hasctx reqkeys deadline cancelled s' o r :
+  Inv s -> nth_error (b_published s) pi = Some pk ->
+  Pick s pi pk method hasctx reqkeys deadline cancelled = (s', o, r) -> pool_equiv s s'.
+Proof.
+  intros HI Hpk. rewrite Pick_eq.
+  destruct pk as [[|]|[|a l]]; try (intros E; inv E; apply pool_equiv_refl).
+  assert (Hrefs : forall i, In i (a :: l) -> (i < length (b_slots s))%nat).
+  { intros i Hi. destruct HI as (_&_&HP&_). eapply (pub_valid HP); eauto. eapply nth_error_In, Hpk. }
+  destruct (pick_keyres s method hasctx reqkeys) as [key|]; [|intros E; inv E; apply pool_equiv_refl].
+  destruct (_ && _).
+  - unfold pick_rr. destruct (b_slots s); [intros E; inv E; apply pool_equiv_refl|].
+    unfold pick_rr_body. cbv zeta. destruct (get_slot _ _); [|intros E; inv E; apply poolview_equiv; reflexivity].
+    destruct (_ || _); intros E; inv E; apply poolview_equiv; reflexivity.
+  - unfold pick_lb. destruct (pick_dec s key (a :: l)) as [s1 dec] eqn:Ed.
+    destruct (pick_dec_Inv _ _ _ _ _ HI Hrefs Ed) as [HI1 [[fb' ->] Hdec]].
+    destruct dec as [i| |].
+    + destruct (get_slot _ i); intros E; inv E; apply poolview_equiv; reflexivity.
+    + destruct (b_gate _); [intros E; inv E; apply poolview_equiv; reflexivity|].
+      destruct (newSubConn (set_fb s fb')) as [s2 o2] eqn:En. intros E; inv E.
+      apply newSubConn_pool_equiv in En; auto.
+    + intros E; inv E; apply poolview_equiv; reflexivity.
+Qed.
+
+Lemma refresh_poolview s i s' o : refresh s i = (s', o) -> poolview s' = poolview s.
+Proof.
+  intros E. destruct (refresh_cases s i) as [[E' _]|[r [Es [Er [[_ E']|[_ E']]]]]];
+    rewrite E' in E; inv E; reflexivity.
+Qed.
+
+Lemma detectUnresponsive_poolview s p oc s' o : detectUnresponsive s p oc = (s', o) -> poolview s' = poolview s.
+Proof.
+  unfold detectUnresponsive.
+  destruct (negb (b_undet s)); [intros E; inv E; reflexivity|].
+  destruct (negb _); [intros E; inv E; reflexivity|].
+  destruct (get_slot s (pk_slot p)) as [r|]; [|intros E; inv E; reflexivity].
+  destruct (pk_started p <? sl_last r); [intros E; inv E; reflexivity|].
+  destruct (_ && _); [|intros E; inv E; reflexivity].
+  intros E. apply refresh_poolview in E. exact E.
+Qed.
+
+Lemma bindSubConn_poolview s key sc : poolview (bindSubConn s key sc) = poolview s.
+Proof. unfold bindSubConn. destruct (aget (b_screfs s) sc); [|auto]. destruct (aget (b_aff s) key); auto. Qed.
+
+Lemma fold_bindSubConn_poolview keys sc : forall s,
+  poolview (fold_left (fun st k => bindSubConn st k sc) keys s) = poolview s.
+Proof.
+  induction keys as [|k r IH]; intros s; cbn [fold_left]; [auto|]. rewrite IH. apply bindSubConn_poolview.
+Qed.
+
+Lemma unbindSubConn_poolview s key : poolview (unbindSubConn s key) = poolview s.
+Proof. unfold unbindSubConn. destruct (aget (b_aff s) key); [|auto]. destruct (aget (b_screfs s) n); auto. Qed.
+
+Lemma done_bind_poolview s2 p oc rk : poolview (done_bind s2 p oc rk) = poolview s2.
+Proof.
+  unfold done_bind. destruct oc; auto. destruct (pk_cmd p); auto.
+  - destruct (_ && _); auto. destruct (get_slot s2 (pk_slot p)); auto. apply fold_bindSubConn_poolview.
+  - apply unbindSubConn_poolview.
+Qed.
+
+Lemma Done_poolview s j oc rk s' o r : Done s j oc rk = (s', o, r) -> poolview s' = poolview s.
+Proof.
+  rewrite Done_eq. destruct (nth_error (b_picks s) j) as [p|]; [|intros E; inv E; reflexivity].
+  destruct (pk_status p); try (intros E; inv E; reflexivity).
+  destruct (detectUnresponsive (done_s1 s j p) p oc) as [s2 o2] eqn:Ed. intros E; inv E.
+  apply detectUnresponsive_poolview in Ed. rewrite done_bind_poolview, Ed. reflexivity.
+Qed.
+
+Lemma step_pool_equiv raw s o order s' outs r :
+  Inv s -> is_connstate o = false -> step raw s o order = (s', outs, r) -> pool_equiv s s'.
+Proof.
+  intros HI Ho. destruct o as [addrs a| |sc st|pi m hc rk dl cc|j oc rk|dt|j|f|g|k]; cbn [step]; try discriminate.
+  - apply UpdateClientConnState_pool_equiv, HI.
+  - intros E; inv E. apply pool_equiv_refl.
+  - destruct (nth_error (b_published s) pi) eqn:Ep; [|intros E; inv E; apply pool_equiv_refl].
+    destruct (_ && _); [intros E; inv E; apply pool_equiv_refl|]. eapply Pick_pool_equiv; eauto.
+  - intros E. apply poolview_equiv. eapply Done_poolview; eauto.
+  - destruct (0 <=? dt); intros E; inv E; apply poolview_equiv; reflexivity.
+  - destruct (nth_error (b_picks s) j); intros E; inv E; apply poolview_equiv; reflexivity.
+  - intros E; inv E; apply poolview_equiv; reflexivity.
+  - intros E; inv E; apply poolview_equiv; reflexivity.
+  - destruct (nth_error (b_parked s) k) eqn:Ek; [|intros E; inv E; apply pool_equiv_refl].
+    destruct (newSubConn _) as [s2 o2] eqn:En. intros E; inv E.
+    assert (Hc : b_cfg s <> None) by (eapply InvG_cfg_parked; [apply HI|eapply nth_error_nonnil, Ek]).
+    apply newSubConn_pool_equiv in En; [exact En|].
+    apply Inv_set_parked; auto. intros pi Hpi. apply In_remove_nth in Hpi.
+    destruct HI as (_&_&_&_&_&HS). apply (parked_valid HS), Hpi.
+Qed.
+
+Lemma mask_sp_poolview s s' : mask_sp s' = mask_sp s -> poolview s' = poolview s.
+Proof. intros H. change (poolview (mask_sp s') = poolview (mask_sp s)). rewrite H. reflexivity. Qed.
+
+(* ================================================================ refreshingScRefs *)
+Lemma getReadySubConnRef_refr s key s' r found :
+  getReadySubConnRef s key = (s', r, found) -> b_refr s' = b_refr s.
+Proof.
+  unfold getReadySubConnRef. destruct (aget (b_aff s) key); [|intros E; inv E; auto].
+  destruct (negb _); [|intros E; inv E; auto].
+  destruct (cfg_fallback s); [|intros E; inv E; auto].
+  destruct (aget (b_fb s) key); [intros E; inv E; auto|].
+  destruct (b_picker s); [intros E; inv E; auto|].
+  destruct (leastBusy s refs); [|intros E; inv E; auto].
+  destruct (get_slot s n0); intros E; inv E; auto.
+Qed.
+
+Lemma bindSubConn_refr s key sc : b_refr (bindSubConn s key sc) = b_refr s.
+Proof. unfold bindSubConn. destruct (aget (b_screfs s) sc); [|auto]. destruct (aget (b_aff s) key); auto. Qed.
+
+Lemma fold_bindSubConn_refr keys sc : forall s,
+  b_refr (fold_left (fun st k => bindSubConn st k sc) keys s) = b_refr s.
+Proof.
+  induction keys as [|k r IH]; intros s; cbn [fold_left]; [auto|]. rewrite IH. apply bindSubConn_refr.
+Qed.
+
+Lemma unbindSubConn_refr s key : b_refr (unbindSubConn s key) = b_refr s.
+Proof. unfold unbindSubConn. destruct (aget (b_aff s) key); [|auto]. destruct (aget (b_screfs s) n); auto. Qed.
+
+Lemma done_bind_refr s2 p oc rk : b_refr (done_bind s2 p oc rk) = b_refr s2.
+Proof.
+  unfold done_bind. destruct oc; auto. destruct (pk_cmd p); auto.
+  - destruct (_ && _); auto. destruct (get_slot s2 (pk_slot p)); auto. apply fold_bindSubConn_refr.
+  - apply unbindSubConn_refr.
+Qed.
+
+(* the address list: only a resolver update changes it *)
+Lemma step_addrs raw s o order s' outs r :
+  Inv s -> step raw s o order = (s', outs, r) ->
+  b_addrs s' = match o with OpResolver a _ => a | _ => b_addrs s end.
+Proof.
+  intros HI. destruct o as [addrs a| |sc st|pi m hc rk dl cc|j oc rk|dt|j|f|g|k]; cbn [step].
+  - rewrite UpdateClientConnState_eq.
+    destruct (ucc_init s addrs a raw) as [[s2 o2]|] eqn:E0; [|intros E; inv E; reflexivity].
+    destruct (ucc_init_Inv _ _ _ _ _ _ HI E0) as [_ [_ Ha]].
+    destruct (_ =? _)%nat; [|intros E; injection E as <- _ _; exact Ha].
+    destruct (addSubConn s2) as [[s3 ok] o3] eqn:E3. intros E; injection E as <- _ _.
+    apply addSubConn_views in E3. destruct E3 as [_ [H _]]. apply envview_inv in H.
+    destruct H as (_&_&H&_). rewrite H. exact Ha.
+  - intros E; inv E. reflexivity.
+  - destruct (UpdateSubConnState s sc st order) as [s1 o1] eqn:E1. intros E; inv E.
+    eapply UpdateSubConnState_Inv in E1; eauto. destruct E1 as [_ HF]. apply (uf_addrs _ _ HF).
+  - destruct (nth_error (b_published s) pi); [|intros E; inv E; reflexivity].
+    destruct (_ && _); [intros E; inv E; reflexivity|].
+    intros E. apply Pick_views in E. destruct E as [_ [H _]]. apply envview_inv in H. tauto.
+  - intros E. apply Done_views in E. destruct E as [_ [H _]]. apply envview_inv in H. tauto.
+  - destruct (0 <=? dt); intros E; inv E; reflexivity.
+  - destruct (nth_error (b_picks s) j); intros E; inv E; reflexivity.
+  - intros E; inv E; reflexivity.
+  - intros E; inv E; reflexivity.
+  - destruct (nth_error (b_parked s) k); [|intros E; inv E; reflexivity].
+    destruct (newSubConn _) as [s2 o2] eqn:En. intros E; inv E.
+    apply newSubConn_views in En. destruct En as [_ [H _]]. apply envview_inv in H. tauto.
+Qed.
+
+(* ================================================================ picks *)
+Lemma refresh_picks s i s' o : refresh s i = (s', o) -> b_picks s' = b_picks s.
+Proof.
+  intros E. destruct (refresh_cases s i) as [[E' _]|[r [Es [Er [[_ E']|[_ E']]]]]];
+    rewrite E' in E; inv E; reflexivity.
+Qed.
+
+Lemma detectUnresponsive_picks s p oc s' o : detectUnresponsive s p oc = (s', o) -> b_picks s' = b_picks s.
+Proof.
+  unfold detectUnresponsive.
+  destruct (negb (b_undet s)); [intros E; inv E; reflexivity|].
+  destruct (negb _); [intros E; inv E; reflexivity|].
+  destruct (get_slot s (pk_slot p)) as [r|]; [|intros E; inv E; reflexivity].
+  destruct (pk_started p <? sl_last r); [intros E; inv E; reflexivity|].
+  destruct (_ && _); [|intros E; inv E; reflexivity].
+  intros E. apply refresh_picks in E. exact E.
+Qed.
+
+Lemma bindSubConn_picks s key sc : b_picks (bindSubConn s key sc) = b_picks s.
+Proof. unfold bindSubConn. destruct (aget (b_screfs s) sc); [|auto]. destruct (aget (b_aff s) key); auto. Qed.
+
+Lemma fold_bindSubConn_picks keys sc : forall s,
+  b_picks (fold_left (fun st k => bindSubConn st k sc) keys s) = b_picks s.
+Proof.
+  induction keys as [|k r IH]; intros s; cbn [fold_left]; [auto|]. rewrite IH. apply bindSubConn_picks.
+Qed.
+
+Lemma unbindSubConn_picks s key : b_picks (unbindSubConn s key) = b_picks s.
+Proof. unfold unbindSubConn. destruct (aget (b_aff s) key); [|auto]. destruct (aget (b_screfs s) n); auto. Qed.
+
+Lemma done_bind_picks s2 p oc rk : b_picks (done_bind s2 p oc rk) = b_picks s2.
+Proof.
+  unfold done_bind. destruct oc; auto. destruct (pk_cmd p); auto.
+  - destruct (_ && _); auto. destruct (get_slot s2 (pk_slot p)); auto. apply fold_bindSubConn_picks.
+  - apply unbindSubConn_picks.
+Qed.
+
+Lemma Done_picks s j oc rk s' o r :
+  Done s j oc rk = (s', o, r) -> r <> RBadOp ->
+  exists p, nth_error (b_picks s) j = Some p /\ pk_status p = PPlaced /\
+            b_picks s' = upd_nth j finish_pick (b_picks s).
+Proof.
+  rewrite Done_eq. destruct (nth_error (b_picks s) j) as [p|]; [|intros E; inv E; congruence].
+  destruct (pk_status p) eqn:Est; try (intros E; inv E; congruence).
+  destruct (detectUnresponsive (done_s1 s j p) p oc) as [s2 o2] eqn:Ed. intros E; inv E. intros _.
+  exists p. split; [reflexivity|split; [exact Est|]].
+  rewrite done_bind_picks. apply detectUnresponsive_picks in Ed. rewrite Ed. reflexivity.
+Qed.
